@@ -290,6 +290,9 @@ var updDefaults = map[string]string{
 func projRules(rs []c1819.AuthRule) []ruleObs {
 	var out []ruleObs
 	for _, r := range rs {
+		if r.Act == "service" {
+			continue // not an authentication rule
+		}
 		o := ruleObs{Name: r.Name}
 		switch r.Act {
 		case "deny":
